@@ -875,7 +875,10 @@ def run(ctx):
         "before any derived value is compared; the theorems do not depend on them",
         "a key-log value is taken as bytes (bytes.fromhex is not modelled); master secrets are 48 bytes in the oracle",
     ]
-    ctx.prove(["TLX.Props.C15"])
+    import translate                 # decision-logic functions re-translated from the source and proved equal to the model
+    _tm, _tt = translate.wire(ctx, "C15")
+    ctx.prove(["TLX.Props.C15"] + _tm)
+    ctx.require_theorems(_tt)
     ctx.require_theorems(THEOREMS)
     check_hashes(ctx)
     explore(ctx)
